@@ -93,6 +93,7 @@ struct smp_it nondet_smp_it(void);
 #define SMP_OK(m) ((m).size < ((size_t)1 << 62) && BOOL_OK((m).has_G) && ((m).size == 0 ? !(m).has_G : 1))
 static inline void smp_emplace(struct seqmap_pkt *m, uint64_t key, struct packet p)
 {
+  __CPROVER_assert(p.type == PKT_payload || p.type == PKT_error, "[C05.inorder] only payload and end-of-file / error packets are parked in the reorder buffer");
   if (key == G_k) { if (!m->has_G) { m->has_G = 1; m->pkt_G = p; m->size = m->size + 1; } }
   else { if (nondet_bool()) m->size = m->size + 1; }
 }
@@ -101,7 +102,7 @@ static inline struct smp_it smp_find(struct seqmap_pkt *m, uint64_t key)
   struct smp_it it = nondet_smp_it();
   __CPROVER_assume(BOOL_OK(it.end) && (it.end || it.key == key));
   if (key == G_k) __CPROVER_assume((!it.end) == (m->has_G != 0) && (m->has_G ? (it.val.g_id == m->pkt_G.g_id && it.val.seq_nr == m->pkt_G.seq_nr && it.val.type == m->pkt_G.type && it.val.bufsz == m->pkt_G.bufsz) : 1));
-  if (!it.end) __CPROVER_assume(m->size > 0 && it.val.seq_nr == key && it.val.bufsz <= PKT_MAX && it.val.type >= PKT_uninitialized && it.val.type <= PKT_payload);
+  if (!it.end) __CPROVER_assume(m->size > 0 && it.val.seq_nr == key && it.val.bufsz <= PKT_MAX && (it.val.type == PKT_payload || it.val.type == PKT_error));   /* element invariant: see the assertion in smp_emplace */
   return it;
 }
 static inline struct smp_it smp_erase(struct seqmap_pkt *m, struct smp_it it)
